@@ -161,6 +161,35 @@ def build_history(case):
                 desc["silent"] = False
                 hist = [(prog, {"kind": "initial"}), (p1, desc)]
                 prog = p1
+    if case["idx"] % 16 == 5:
+        # aimed (callers are called before their callees here, edits arrive cell by cell): a variable that only a memento
+        # function beneath another memento function reads gets another value
+        nodes = prog["nodes"]
+        pairs = [(u, t) for u in range(len(nodes)) for t in range(u + 1, len(nodes))
+                 if nodes[u]["kind"] == "memento" and nodes[u]["version"] is None and nodes[t]["kind"] == "memento"
+                 and nodes[t]["version"] is None and nodes[t]["mod"] in ("a", "b")
+                 and any(c["t"] == t and c["form"] != "hidden" for c in nodes[u]["calls"])]
+        if not pairs:  # no such edge yet: the first memento function gets one to a later memento function of its module
+            ms = [i for i, nd in enumerate(nodes) if nd["kind"] == "memento" and nd["version"] is None and nd["mod"] in ("a", "b")]
+            same = [(u, t) for u in ms for t in ms if t > u and nodes[t]["mod"] == nodes[u]["mod"]]
+            if same:
+                u, t = same[0]
+                prog = copy.deepcopy(prog)
+                nodes = prog["nodes"]
+                nodes[u]["calls"].append({"t": t, "form": "bare"})
+                pairs = [(u, t)]
+        if pairs:
+            u, t = rng.choice(pairs)
+            p0 = copy.deepcopy(prog)
+            p0["vars"].append({"name": "GD", "mod": nodes[t]["mod"], "type": "num", "value": 2})
+            vj = len(p0["vars"]) - 1
+            p0["nodes"][t]["reads"].append({"v": vj, "form": "bare"})
+            p1 = copy.deepcopy(p0)
+            p1["vars"][vj]["value"] = 9
+            d1 = {"kind": "var_value", "node": None, "var": vj, "bumped": progs.bump_explicit_above(p1, var=vj), "silent": False}
+            d1["changed_defs"] = sorted(set(d1["bumped"]))
+            hist = [(p0, {"kind": "initial"}), (p1, d1)]
+            prog = p1
     if case["idx"] % 16 == 9:
         # aimed: a plain helper is re-executed with a body that reads a variable nothing mentioned before; everything is
         # called; then that variable gets another value
